@@ -198,6 +198,10 @@ def _exec_case(c):
 def worker(mode, cases_file, out_file, progress_file):
     """runs the cases one by one; every result is appended to out_file as one JSON line as soon as it exists"""
     nv.setup_env(jit=(mode == "jit"))
+    if mode == "checked":
+        import boundscheck
+
+        boundscheck.install(nv.REPO)
     with open(cases_file) as f:
         cases = json.load(f)
     with open(out_file, "w") as out:
@@ -218,7 +222,7 @@ def cfg_json(cfg):
 MAX_HANGS = 3
 
 
-def run_impl(cases, jit, timeout_per_batch=None, tag="w", case_timeout=20):
+def run_impl(cases, jit, timeout_per_batch=None, tag="w", case_timeout=20, checked=False):
     """run the cases in a supervised worker process.  The parent watches the stream of results: if no new result
     appears for `case_timeout` seconds the worker is killed, the case in progress is recorded as ('hang', …) and a new
     worker continues with the next case.  After MAX_HANGS hangs the remaining cases are recorded as ('skipped', …):
@@ -237,12 +241,13 @@ def run_impl(cases, jit, timeout_per_batch=None, tag="w", case_timeout=20):
         with open(base + ".cases", "w") as f:
             json.dump([cases[i] for i in todo], f)
         open(base + ".out", "w").close()
-        proc = subprocess.Popen([sys.executable, os.path.abspath(__file__), "worker", "jit" if jit else "nojit",
+        proc = subprocess.Popen([sys.executable, os.path.abspath(__file__), "worker", "checked" if checked else ("jit" if jit else "nojit"),
                                  base + ".cases", base + ".out", base + ".prog"], stdout=subprocess.DEVNULL, stderr=subprocess.PIPE)
         got, ready, last = 0, False, time.time()
         fh = open(base + ".out")
         status = None
         buf = ""
+        self_hangs = [0]
 
         def consume(lines):
             nonlocal got, ready
@@ -252,6 +257,8 @@ def run_impl(cases, jit, timeout_per_batch=None, tag="w", case_timeout=20):
                     continue
                 if got < len(todo):
                     results[todo[got]] = tuple(json.loads(ln))
+                    if results[todo[got]][0] == "hang":
+                        self_hangs[0] += 1
                     got += 1
 
         while True:
@@ -266,6 +273,9 @@ def run_impl(cases, jit, timeout_per_batch=None, tag="w", case_timeout=20):
                 if got == len(todo):
                     status = "done"
                     break
+                if hangs + self_hangs[0] >= MAX_HANGS:
+                    status = "enough"
+                    break
                 continue
             if proc.poll() is not None:
                 buf += fh.read()
@@ -277,9 +287,14 @@ def run_impl(cases, jit, timeout_per_batch=None, tag="w", case_timeout=20):
                 break
             time.sleep(0.02)
         fh.close()
+        hangs += self_hangs[0]
         if status == "done":
             proc.wait()
             todo = []
+        elif status == "enough":
+            proc.kill()
+            proc.wait()
+            todo = todo[got:]
         elif status == "hang":
             proc.kill()
             proc.wait()
